@@ -98,6 +98,10 @@ def run_variant(v):
                 hit = True
             elif code == 2:
                 problems.append('%s: analysis error: %s' % (p, out.strip().splitlines()[-1][:200] if out.strip() else ''))
+        if v.get('all'):
+            silent = [p for p in v['expect'] if res[p][0] == 0]
+            if silent:
+                problems.append('recorded as detected by %s, but silent now: %s' % (v['expect'], silent))
         if not hit:
             problems.append('no expected check fired (%s): %s' % (v['expect'], {p: res[p][0] for p in v['expect']}))
     else:
@@ -121,7 +125,7 @@ def load_variants(seeded=False):
                     with open(meta) as f:
                         m = json.load(f)
                     vs.append({'name': 'seeded/' + name, 'kind': 'breaking', 'patch': os.path.join(sd, name, 'patch.diff'),
-                               'expect': m.get('detected_by') or [m['property']], 'props': ALL if m.get('run_all') else (m.get('detected_by') or [m['property']])})
+                               'expect': m.get('detected_by') or [m['property']], 'props': ALL if m.get('run_all') else (m.get('detected_by') or [m['property']]), 'all': True})
     return vs
 
 
@@ -133,7 +137,7 @@ def main():
     a = ap.parse_args()
     vs = load_variants(a.seeded)
     if a.only:
-        vs = [v for v in vs if a.only in v['name']]
+        vs = [v for v in vs if any(o in v['name'] for o in a.only.split(','))]
     t0 = time.time()
     bad = 0
     with concurrent.futures.ThreadPoolExecutor(max_workers=a.j) as ex:
